@@ -79,8 +79,7 @@ Falsy(t, flag) ==
 
 \* copy(x): result type, whether it must compare equal, whether it may share mutable state
 CopyType(t) == CASE t = "immutable-array" -> "array" [] t = "immutable-map" -> "map" [] OTHER -> t
-CopyEqual(t) == t \notin {"function", "builtin", "error"}           \* x == x is already false for functions;
-                                                                    \* errors compare by identity (see DESIGN 15.4)
+CopyEqual(t) == t \notin {"function", "builtin"}     \* x == x is already false for functions (and for NaN)
 \* conversion builtins: "ok" (always converts), "parse" (string must parse, else no conversion), "no"
 Conv(dst, t) ==
   CASE dst = "string" -> IF t = "undefined" THEN "no" ELSE "ok"
